@@ -73,7 +73,7 @@ func c18File(bk badKind, chainPos []string, sole bool) (*dsl.File, string, strin
 	// attach to Beta at chainPos[0]
 	att := wrapC18("tmp", inner, chainPos[0])
 	for _, fl := range att.Fields {
-		if fl.Name == "Side" {
+		if fl.Name == "Sidetmp" {
 			continue
 		}
 		fl.Num += 20
@@ -133,7 +133,7 @@ func wrapC18(outer, inner, pos string) *dsl.Message {
 		f.Embed = true
 	}
 	m.Fields = append([]*dsl.Field{f}, m.Fields...)
-	m.Fields = append(m.Fields, &dsl.Field{Name: "Side", Num: 10, T: dsl.String})
+	m.Fields = append(m.Fields, &dsl.Field{Name: "Side" + outer, Num: 10, T: dsl.String})
 	return m
 }
 
